@@ -465,9 +465,38 @@ fn family_text_decl(t: &mut Tape) -> String {
     lines.join("\n") + "\n"
 }
 
+/// inputs near the 64 KiB bound: many generated units with disjoint name prefixes (valid, so all
+/// stages run over the whole text), or one unit repeated verbatim (every name declared many times)
+fn family_large(t: &mut Tape, gates: &Gates) -> String {
+    let target = 16 * 1024 + t.below(48 * 1024);
+    let repeat_same = t.ratio(1, 4);
+    let mut out = String::new();
+    let seed_bytes: Vec<u8> = (0..64).map(|_| t.byte()).collect();
+    let mut k = 0;
+    while out.len() < target && k < 4000 {
+        let mut p = crate::gen_valid::Profile::default();
+        p.config = false;
+        p.prefix = if repeat_same { "r_".to_string() } else { format!("u{}_", k) };
+        let sub = if repeat_same { seed_bytes.clone() } else { crate::tape::derived(&[seed_bytes[k % 64], (k >> 8) as u8, k as u8], 64) };
+        let u = crate::gen_valid::gen_unit(&mut Tape::new(&sub), gates, &p);
+        let mut pr = Printer::new(gates, Tape::empty());
+        pr.library(&u.lib);
+        let lex = pr.finish();
+        let (lay, _) = layout(&lex, &SpellOpts::canonical(), &mut Tape::empty());
+        if lay.text.is_empty() {
+            break;
+        }
+        out.push_str(&lay.text);
+        k += 1;
+    }
+    gates.take_hits();
+    out
+}
+
 pub fn gen_input(t: &mut Tape, gates: &Gates) -> (String, &'static str) {
     let (s, fam) = match t.below(11) {
         10 if t.ratio(1, 3) => (long_chain(t, gates), "long-operator-chain"),
+        10 if t.ratio(1, 8) => (family_large(t, gates), "large-input"),
         10 => (family_text_decl(t), "text-declarations"),
         0 => (family_bytes(t), "bytes"),
         1 | 2 => (family_soup(t), "token-soup"),
